@@ -70,6 +70,10 @@ def cases(tier, seed):
     cone_base = {q: COORDS[q][0] for q in COORDS}
     cone_base.update(model='kpanel', alpha=15.0)
     pts += pan.lattice(COORDS, k - 1, base=cone_base)
+    # free edges with a longer series along y: every sub-interval letter sees the edge functions and indices up to 7
+    free_base = {q: COORDS[q][0] for q in COORDS}
+    free_base.update(fbase='FFFF', ord=ORDS.index((3, 8)))
+    pts += pan.lattice(COORDS, k - 1, base=free_base)
     seen, out = set(), []
     for c in pts:
         key = tuple(sorted((q, str(v)) for q, v in c.items() if q != '_ndev'))
